@@ -18,21 +18,11 @@ func (ls *LState) CheckAny(n int) LValue {
 }
 
 func (ls *LState) CheckInt(n int) int {
-	v := ls.Get(n)
-	if intv, ok := v.(LNumber); ok {
-		return int(intv)
-	}
-	ls.TypeError(n, LTNumber)
-	return 0
+	return int(ls.CheckNumber(n))
 }
 
 func (ls *LState) CheckInt64(n int) int64 {
-	v := ls.Get(n)
-	if intv, ok := v.(LNumber); ok {
-		return int64(intv)
-	}
-	ls.TypeError(n, LTNumber)
-	return 0
+	return int64(ls.CheckNumber(n))
 }
 
 func (ls *LState) CheckNumber(n int) LNumber {
@@ -142,39 +132,24 @@ func (ls *LState) CheckOption(n int, options []string) int {
 /* optType {{{ */
 
 func (ls *LState) OptInt(n int, d int) int {
-	v := ls.Get(n)
-	if v == LNil {
+	if ls.Get(n) == LNil {
 		return d
 	}
-	if intv, ok := v.(LNumber); ok {
-		return int(intv)
-	}
-	ls.TypeError(n, LTNumber)
-	return 0
+	return ls.CheckInt(n)
 }
 
 func (ls *LState) OptInt64(n int, d int64) int64 {
-	v := ls.Get(n)
-	if v == LNil {
+	if ls.Get(n) == LNil {
 		return d
 	}
-	if intv, ok := v.(LNumber); ok {
-		return int64(intv)
-	}
-	ls.TypeError(n, LTNumber)
-	return 0
+	return ls.CheckInt64(n)
 }
 
 func (ls *LState) OptNumber(n int, d LNumber) LNumber {
-	v := ls.Get(n)
-	if v == LNil {
+	if ls.Get(n) == LNil {
 		return d
 	}
-	if lv, ok := v.(LNumber); ok {
-		return lv
-	}
-	ls.TypeError(n, LTNumber)
-	return 0
+	return ls.CheckNumber(n)
 }
 
 func (ls *LState) OptString(n int, d string) string {
